@@ -50,7 +50,45 @@ type Pipe struct {
 	dir     int
 	count   int
 	silent  bool // black hole: everything entering is dropped, nothing leaves
+	hold    bool // deliveries are paused (packets stay queued) unless allow > 0
+	allow   int
 	lastRdy time.Time
+}
+
+// Hold pauses (true) or resumes (false) deliveries from this pipe.
+func (p *Pipe) Hold(v bool) {
+	p.mu.Lock()
+	p.hold = v
+	p.allow = 0
+	p.mu.Unlock()
+	select {
+	case p.notify <- struct{}{}:
+	default:
+	}
+}
+
+// Release lets k held packets through.
+func (p *Pipe) Release(k int) {
+	p.mu.Lock()
+	p.allow += k
+	p.mu.Unlock()
+	select {
+	case p.notify <- struct{}{}:
+	default:
+	}
+}
+
+// Inject puts raw bytes at the tail of the pipe as if the peer had sent them.
+func (s *Sim) Inject(dir int, b []byte) {
+	p := s.pipes[dir]
+	p.mu.Lock()
+	p.q = append(p.q, pipeItem{append([]byte(nil), b...), time.Now()})
+	s.log(Event{EP: dir, Kind: "inject", Pkt: b})
+	p.mu.Unlock()
+	select {
+	case p.notify <- struct{}{}:
+	default:
+	}
 }
 
 type Sim struct {
@@ -167,7 +205,7 @@ func (s *Sim) recvFunc(ep int) func(ctx context.Context) ([]byte, error) {
 				return nil, err
 			}
 			p.mu.Lock()
-			if len(p.q) > 0 && !p.silent {
+			if len(p.q) > 0 && !p.silent && (!p.hold || p.allow > 0) {
 				it := p.q[0]
 				if wait := time.Until(it.readyAt); wait > 0 {
 					p.mu.Unlock()
@@ -181,6 +219,9 @@ func (s *Sim) recvFunc(ep int) func(ctx context.Context) ([]byte, error) {
 					continue
 				}
 				p.q = p.q[1:]
+				if p.hold {
+					p.allow--
+				}
 				s.log(Event{EP: ep, Kind: "deliver", Pkt: it.b, By: by})
 				more := len(p.q) > 0
 				p.mu.Unlock()
